@@ -84,6 +84,7 @@ fn dump<'tcx>(tcx: TyCtxt<'tcx>) -> J {
         }
         if is_fn {
             o = o.fs("vis", vis_str(tcx, did));
+            o = o.f("reachable", J::B(tcx.effective_visibilities(()).is_reachable(ldid)));
             let sig = tcx.fn_sig(did).instantiate_identity().skip_normalization().skip_binder();
             o = o
                 .f("inputs", J::A(sig.inputs().iter().map(|t| J::s(fmt_ty(*t))).collect()))
@@ -192,6 +193,7 @@ fn dump<'tcx>(tcx: TyCtxt<'tcx>) -> J {
                         .fs("path", def_path(tcx, did))
                         .f("is_enum", J::B(adt.is_enum()))
                         .fs("vis", vis_str(tcx, did))
+                        .f("reachable", J::B(tcx.effective_visibilities(()).is_reachable(ldid)))
                         .f("variants", J::A(vs))
                         .f("cfg_test", J::B(is_cfg_test(tcx, ldid)))
                         .done(),
